@@ -21,7 +21,9 @@ def scenarios(tier, wd):
                 ("format-fails", fc.SRC_FAIL, None, fc.CFG_A), ("empty", b"", fc.formatted_of(b"", fc.CFG_A, wd), fc.CFG_A),
                 ("changed-cfgB", fc.SRC_CHANGED, fB, fc.CFG_B),
                 # formatted text of the SAME length as the original: file_content_matches() has to compare the bytes
-                ("same-length", fc.SRC_SAMELEN, fc.formatted_of(fc.SRC_SAMELEN, fc.CFG_SAMELEN, wd), fc.CFG_SAMELEN)]
+                ("same-length", fc.SRC_SAMELEN, fc.formatted_of(fc.SRC_SAMELEN, fc.CFG_SAMELEN, wd), fc.CFG_SAMELEN),
+                # several stdio buffers of output: transient write faults ('glitch') are possible
+                ("big", fc.SRC_BIG, fc.formatted_of(fc.SRC_BIG, fc.CFG_A, wd), fc.CFG_A)]
     for style in INPLACE:
         for name, o, f, cfg in contents:
             for md5 in ["none", "match", "stale"]:
@@ -33,6 +35,8 @@ def scenarios(tier, wd):
                             if not ((md5 == "none" and ic == 0 and mt == 0) or (h == 0 and ic != mt)):
                                 continue
                         if "no-backup" in style and md5 != "none":
+                            continue
+                        if name == "big" and (md5 != "none" or mt):
                             continue
                         md5_of = {"none": None, "match": o, "stale": b"something else\n"}[md5]
                         bk = None if md5 == "none" else b"OLD BACKUP\n"
@@ -64,7 +68,7 @@ def run(rep, build, tier, seed):
                        "EVERY single fault (op k fails, all k; device full after 0/1/7 bytes of each write); thorough adds all fault pairs and "
                        "fault+crash. Non-trivial = plan non-empty and the run reached at least the first write-side operation.")
     rep.assumptions = ["Coq kernel 8.16.1; extraction ExtrOcamlBasic; ocaml driver glue", "LD_PRELOAD interposer shim/fsshim.c (glibc stdio; /dev/full for ENOSPC)",
-                       "rename(2) atomic, no durability/fsync modelling", "files below 1 KiB (one read() per file in file_content_matches)",
+                       "rename(2) atomic, no durability/fsync modelling", "files below 1 KiB (one read() per file in file_content_matches) except the 20 KiB scenario used for transient write faults",
                        "md5 abstracted: the md5 file is compared with Python's hashlib"]
     if build.get("uncrustify") != "ok" or build.get("model") != "ok":
         rep.unproved("build failed", "\n".join(build["errors"])[-3000:])
@@ -79,6 +83,10 @@ def run(rep, build, tier, seed):
             if d0:
                 corr.append((name, [], d0))
             plans = fc.plans_for(M0["trace"], tier, M0["ops"])
+            if name.split("/")[1] == "big":
+                # the fault passes: one buffer is lost in the middle, every later write and the fclose() succeed
+                wr = [k for k, t in enumerate(M0["trace"]) if t.startswith("write")]
+                plans = [[]] + [[(k, a)] for k in wr for a in ("glitch=0", "glitch=3000", "full=5000", "crashw=5000")] + [[(k, "fail")] for k in range(M0["ops"])]
             after_first = {}
             for pl in plans:
                 if len(pl) == 2 and pl[1][1].startswith("full"):
@@ -88,7 +96,12 @@ def run(rep, build, tier, seed):
                     tr = after_first[pl[0]]
                     if pl[1][0] >= len(tr) or not tr[pl[1][0]].startswith("write"):
                         continue
-                I, M, diffs = fc.compare(m, base, scn, f, pl)
+                if name.split("/")[1] == "big":
+                    # FsProto models files of less than one stdio buffer (a write error surfaces at fclose); for the 20 KiB scenario
+                    # only the theorem's statement is evaluated on the real file system, the operation trace is not compared
+                    I, M, diffs = fsrun.run_impl(base, scn, pl), M0, []
+                else:
+                    I, M, diffs = fc.compare(m, base, scn, f, pl)
                 nplans += 1
                 first_w = next((i for i, t in enumerate(M0["trace"]) if t.startswith("fopen-w")), 10 ** 6)
                 rep.count(key=(name, tuple(pl)), nontrivial=bool(pl) and pl[0][0] >= first_w)
